@@ -187,8 +187,8 @@ class Lane(Component):
     s.in_ = InPort(4); s.en = InPort(); s.x = InPort(4); s.out = OutPort(4)
     @update
     def up_lane():
-      if s.en: s.out @= s.in_ | s.x
-      else:    s.out @= s.in_
+      if s.en: s.out @= (s.in_ >> 1) | s.x
+      else:    s.out @= s.in_ >> 1
 class RingComp(Component):   # a large cyclic group made of sibling component instances (identical block names)
   def construct(s):
     n = 12
@@ -245,59 +245,60 @@ class L9(Component):   # divergent loop spanning components through nets: a = ~a
     s.out //= s.m
     @update
     def up_back(): s.i.in_ @= s.m if s.en else 0
-class Ring(Component):   # a large cyclic group with a branch in every block (monotone, converges)
+class Ring(Component):   # a large cyclic group with a branch in every block; every hop shifts right, so the loop forgets any
+                          # prior state after 4 hops and converges under every block order (a ring of plain copies would rotate forever under a reversed order)
   def construct(s):
     n = 12
     s.in_ = InPort(4); s.en = InPort(n); s.out = OutPort(4)
     s.x = [Wire(4) for _ in range(n)]
     @update
     def up_ring0():
-      if s.en[0]: s.x[0] @= s.x[11] | s.in_
-      else:        s.x[0] @= s.x[11]
+      if s.en[0]: s.x[0] @= (s.x[11] >> 1) | s.in_
+      else:        s.x[0] @= s.x[11] >> 1
     @update
     def up_ring1():
-      if s.en[1]: s.x[1] @= s.x[0] | s.in_
-      else:        s.x[1] @= s.x[0]
+      if s.en[1]: s.x[1] @= (s.x[0] >> 1) | s.in_
+      else:        s.x[1] @= s.x[0] >> 1
     @update
     def up_ring2():
-      if s.en[2]: s.x[2] @= s.x[1] | s.in_
-      else:        s.x[2] @= s.x[1]
+      if s.en[2]: s.x[2] @= (s.x[1] >> 1) | s.in_
+      else:        s.x[2] @= s.x[1] >> 1
     @update
     def up_ring3():
-      if s.en[3]: s.x[3] @= s.x[2] | s.in_
-      else:        s.x[3] @= s.x[2]
+      if s.en[3]: s.x[3] @= (s.x[2] >> 1) | s.in_
+      else:        s.x[3] @= s.x[2] >> 1
     @update
     def up_ring4():
-      if s.en[4]: s.x[4] @= s.x[3] | s.in_
-      else:        s.x[4] @= s.x[3]
+      if s.en[4]: s.x[4] @= (s.x[3] >> 1) | s.in_
+      else:        s.x[4] @= s.x[3] >> 1
     @update
     def up_ring5():
-      if s.en[5]: s.x[5] @= s.x[4] | s.in_
-      else:        s.x[5] @= s.x[4]
+      if s.en[5]: s.x[5] @= (s.x[4] >> 1) | s.in_
+      else:        s.x[5] @= s.x[4] >> 1
     @update
     def up_ring6():
-      if s.en[6]: s.x[6] @= s.x[5] | s.in_
-      else:        s.x[6] @= s.x[5]
+      if s.en[6]: s.x[6] @= (s.x[5] >> 1) | s.in_
+      else:        s.x[6] @= s.x[5] >> 1
     @update
     def up_ring7():
-      if s.en[7]: s.x[7] @= s.x[6] | s.in_
-      else:        s.x[7] @= s.x[6]
+      if s.en[7]: s.x[7] @= (s.x[6] >> 1) | s.in_
+      else:        s.x[7] @= s.x[6] >> 1
     @update
     def up_ring8():
-      if s.en[8]: s.x[8] @= s.x[7] | s.in_
-      else:        s.x[8] @= s.x[7]
+      if s.en[8]: s.x[8] @= (s.x[7] >> 1) | s.in_
+      else:        s.x[8] @= s.x[7] >> 1
     @update
     def up_ring9():
-      if s.en[9]: s.x[9] @= s.x[8] | s.in_
-      else:        s.x[9] @= s.x[8]
+      if s.en[9]: s.x[9] @= (s.x[8] >> 1) | s.in_
+      else:        s.x[9] @= s.x[8] >> 1
     @update
     def up_ring10():
-      if s.en[10]: s.x[10] @= s.x[9] | s.in_
-      else:        s.x[10] @= s.x[9]
+      if s.en[10]: s.x[10] @= (s.x[9] >> 1) | s.in_
+      else:        s.x[10] @= s.x[9] >> 1
     @update
     def up_ring11():
-      if s.en[11]: s.x[11] @= s.x[10] | s.in_
-      else:        s.x[11] @= s.x[10]
+      if s.en[11]: s.x[11] @= (s.x[10] >> 1) | s.in_
+      else:        s.x[11] @= s.x[10] >> 1
     @update
     def up_o(): s.out @= s.x[11]
 class Once(Component):   # update_once inside a cycle: must be rejected at scheduling time
